@@ -155,8 +155,8 @@ class AabbTree:
         is_overlapping = len(overlap_pairs) > 0
         return (
             is_overlapping,
-            np.unique(overlap_tetrahedron1),
-            np.unique(overlap_tetrahedron2),
+            np.unique(np.asarray(overlap_tetrahedron1, dtype=int)),
+            np.unique(np.asarray(overlap_tetrahedron2, dtype=int)),
             overlap_pairs,
         )
 
